@@ -98,6 +98,7 @@ package bech32
 //@   loop 2 decreases bits
 //@   ensures#nil err != nil ==> ret == nil                                                                                  [C09 C14]
 //@   ensures#syms err == nil ==> (forall j in 0..len(ret) :: 0 <= ret[j] && ret[j] < pow2(tobits))                          [C09 C14]
+//@   ensures#padding (err == nil && !pad) ==> bits < frombits && and8(shl32(acc, tobits - bits) % 256, maxv) == 0           [C09]
 //@   fresh ret when len(ret) > 0
 //@   modifies nothing
 
